@@ -10,5 +10,7 @@ INVARIANT C10_ManifestLagsByAtMostOne
 INVARIANT C10_ResumeEqualsUninterrupted
 INVARIANT C10_NoDup
 PROPERTY C10_NoRecompute
+PROPERTY C10_ManifestOnlyGrows
+PROPERTY C10_ListedFileStaysComplete
 PROPERTY EventuallyDone
 CHECK_DEADLOCK FALSE
